@@ -410,6 +410,22 @@ def list_fragments(fst, S, tree, src, cidp, rep, res):
                     continue
                 res.nontriv(text, mode)
                 res.outcomes['list-fragment-ok'] += 1
+                # list modes whose grammar fixes the first token: anything put in front that is not that keyword makes the text
+                # invalid for the mode, whatever the parse wrapper would make of it
+                lead = {'_comprehensions': ('for', 'async'), '_comprehension_ifs': ('if',), '_ExceptHandlers': ('except',),
+                        '_match_cases': ('case',), '_decorator_list': ('@',)}.get(mode)
+                if lead:
+                    for junk in ('.x ', '(y) ', 'or z ', '[0] ', ', ', 'x ', '] + [', ') or ('):
+                        v = junk + text
+                        res.evals += 1
+                        res.transitions += 1
+                        res.traces += 1
+                        f2, e2 = pfst_parse(fst, v, mode)
+                        if e2 is None:
+                            res.fail(f'{cid}/junk={junk!r}', 'invalid-fragment-accepted',
+                                     f'text={v!r} mode={mode}\nparsed to {ast.dump(f2.a)[:300]}', {'mode': mode, 'multiline': '\n' in v}, rep)
+                        else:
+                            res.outcomes['invalid-rejected'] += 1
 
 
 REPL = [')', '(', ',', ':', '=', '*', '**', 'as', 'if', 'for', '\n', '#', ';']
